@@ -94,17 +94,17 @@ Proof.
     - cbn [bind]. destruct (Htcp Efx E6 ltac:(lia)) as [Hd1 Hd2].
       destruct (Nat.ltb_spec (doff seg) 20); [lia|]. destruct (Nat.ltb_spec (List.length seg) (doff seg)); [lia|]. cbn [orb].
       exact Hfin. }
-  assert (HI : forall id t,
+  assert (HI : forall id t (g : bool),
      agrees (p <- payload_view (cs b) f;; _ <- icmp_is_valid p;; t0 <- icmp_type p;;
-             f0 <- (if t0 =? t then _ <- icmp_is_valid p;; id0 <- echo_id p;; Ok (set_echo f (Some id0)) else Ok f);;
+             f0 <- (if (t0 =? t) && g then _ <- icmp_is_valid p;; id0 <- echo_id p;; Ok (set_echo f (Some id0)) else Ok f);;
              Ok (set_id f0 id))
             (if Nat.ltb (List.length (skipn (f_offP f) b)) 8 then RErr
              else ROk (with_l4 (proj f) id 0 0 None None (f_offP f)))).
-  { intros id t. rewrite payload_view_pos by (cbn; lia). cbn [bind set_id f_offP cs arr len].
+  { intros id t g. rewrite payload_view_pos by (cbn; lia). cbn [bind set_id f_offP cs arr len].
     unfold icmp_is_valid, icmp_type, echo_id. cbn [len]. rewrite skipn_length.
     destruct (Nat.leb_spec 8 (List.length b - f_offP f)); destruct (Nat.ltb_spec (List.length b - f_offP f) 8); try lia; cbn [bind agrees]; [|reflexivity].
     repeat (rd; cbn [bind]).
-    destruct (_ =? t); cbn [bind]; repeat (rd; cbn [bind]); cbn [agrees]; unfold proj, with_l4;
+    destruct ((_ =? t) && g); cbn [bind]; repeat (rd; cbn [bind]); cbn [agrees]; unfold proj, with_l4;
     cbn [f_id f_src f_dst f_off4 f_off6 f_offU f_offT f_offP set_id set_echo a_mac a_ip a_port r_smac r_dmac r_sip r_dip r_ip4 r_ip6];
     rewrite HU, HT, Hsp, Hdp; reflexivity. }
   destruct (proto =? 1); [apply HI|].
